@@ -333,6 +333,8 @@ var naturalCauses = []string{
 	// a step the chain has no controller for: an action (ACTION_SWAP in the application's wiring)
 	// or an outgoing protocol (IBC) that is valid as an identifier, also while it is paused
 	"action-without-controller", "protocol-without-controller", "paused-protocol-without-controller",
+	// the bank's send switch of the denomination is off: a bank MsgSend (the internal route) is refused
+	"send-disabled-denom",
 	// not a failure of the transfer: the one documented exception. The statistics of the route
 	// cannot be recorded (counter saturated by a valid genesis); the transfer itself must still
 	// be complete.
@@ -379,6 +381,9 @@ func applyCause(w *world.World, ctx sdk.Context, c *caseC03Natural) error {
 		t.Route = kit.Route{Kind: "hyp", Domain: 1, TokenID: w.HypToken[world.Ufoo], Recipient: kit.Fill32(2)}
 	case "blocked-internal-recipient":
 		t.Route = kit.Route{Kind: "internal", To: world.DustAddr.String()}
+	case "send-disabled-denom":
+		t.Route = kit.Route{Kind: "internal", To: world.Addr("bob").String()}
+		return env(kit.Env{Kind: "send_disable", Denom: t.Denom})
 	case "action-without-controller":
 		if len(t.Actions) > 0 && t.Channel%2 == 0 {
 			t.Actions = append(t.Actions, kit.Action{Kind: "swap"})
@@ -444,7 +449,7 @@ func runC03Natural(w *world.World, c caseC03Natural, rec *kit.Recorder) error {
 		switch c.Cause {
 		case "blocked-internal-recipient", "above-burn-limit", "cctp-unknown-domain", "cctp-burning-paused",
 			"hyp-unknown-domain", "hyp-unknown-token", "escrow-short", "receive-disabled",
-			"action-without-controller", "protocol-without-controller", "paused-protocol-without-controller":
+			"action-without-controller", "protocol-without-controller", "paused-protocol-without-controller", "send-disabled-denom":
 			strict = true
 		case "hyp-token-of-other-denom":
 			strict = c.Transfer.Denom != world.Ufoo // the token named is ufoo's own
